@@ -8,12 +8,12 @@ solver is constructed and called on a deterministic lattice; the documented prob
 xpmc/x_c14_heat.py from the docstrings) is evaluated on the returned temperatures by finite differences:
 
   pde:interior        T_t - kappa*Laplacian(T) (- source)   4th-order central differences, 3 step sizes, 4 times
-  bc:<face>           alpha*T + beta*dT/dcoord = gamma     one-sided differences, 3 step sizes, 4 times
+  bc:<face>           alpha*T + beta*dT/dcoord = gamma     one-sided differences, 5 step sizes, 4 times
   bc:r=0 (symmetry)   dT/dr -> 0                            from r = h, 2h, 3h (r = 0 itself is not used)
   axis:value-is-limit T(r=0) = lim T(r), r = 1e-3, 1e-6, 1e-9 of the radius
   initial:limit/rise  sup-distance to the declared initial profile at t = 1e-2, 1e-3, 1e-4 (small at the last, not rising)
                       (CylindricalSandwich, which cannot sum more than 20 angular modes: low-order moments instead of sup)
-  steady:limit        T(100 tscale) = the stated static solution
+  steady:limit        T(1000 tscale) = the stated static solution
   finite:*            no NaN/inf at any lattice point inside the closed domain at t > 0
 
 Series truncation (class D): a boundary/initial/steady/axis clause whose residual exceeds its tolerance at the configured
@@ -105,12 +105,14 @@ TOL = {
     "steady": 1e-9,     # measured worst 2.8e-14
 }
 TOL_FAMILY = {
-    # mode-wise radial flux faces: measured 1.6e-7 (pinned), 3.8e-6 (patched solver; newton tolerance of the mode numbers);
+    # mode-wise radial flux faces: measured worst 2.0e-6 (pinned, a = 0.4 at 10 x 40, field still rough at t = 1e-3 tscale),
+    # 3.8e-8 (patched solver; newton tolerance of the mode numbers);
     # documented accuracy of the coefficients 1e-3 ("NOTE" in the docstring); low-order moments of the patched solver at
     # t = 1e-4 tscale: 5.3e-4 (physical decay, independent of the truncation); pde of the patched solver 3.6e-7
     "CylindricalSandwich": {"pde": 1e-2, "bc": 1e-4, "initial": 1e-2, "rise": 1e-2, "steady": 1e-9},
     # double series, Nsum = 100: measured worst initial/rise 2.3e-3 (a = 0.7, b = 1.5; 5.9e-3 at a = 0.7 with the overflow repaired):
-    # truncation in y at t = 1e-4 tscale; a wrong coefficient gives 1.2 (mutant rectangle_coefficient_a_for_b)
+    # truncation in y at t = 1e-4 tscale; a wrong coefficient gives 1.2 (mutant rectangle_coefficient_a_for_b).  At Nsum = 30 the
+    # clause is truncation-limited (measured up to 5.9e-2) and is decided by the falls-with-Nsum rule whichever side of 6e-2 it lands
     "Rectangle": {"initial": 6e-2, "rise": 6e-2},
 }
 FALL = 0.6
@@ -288,6 +290,8 @@ def run_task(task):
         kind, k, tf = spec
         if not prob.nsum or kind == "pde":
             return False
+        if kind == "initial" and getattr(prob, "initial_weak", False):
+            return False        # low-order moments of a truncated expansion do not depend on the number of terms either
 
         def value_at(factor):
             if (factor, kind, k, alt) in dead:     # overflow of a longer series does not depend on the time
